@@ -274,12 +274,17 @@ class Module(AuxDataContainer):
         if proto_module.entry_point:
             entry_point_uuid = UUID(bytes=proto_module.entry_point)
             entry_point = ir.get_by_uuid(entry_point_uuid)
-            if not isinstance(entry_point, CodeBlock):
+            if entry_point is None:
+                # The block may belong to a module that is decoded later;
+                # the IR resolves it once all of its modules are decoded.
+                m._pending_entry_point = entry_point_uuid
+            elif not isinstance(entry_point, CodeBlock):
                 raise DeserializationError(
                     "Module: entry block UUID %s is not a CodeBlock"
                     % entry_point_uuid
                 )
-            m.entry_point = entry_point
+            else:
+                m.entry_point = entry_point
         # symbols depend on blocks
         m.symbols.update(
             Symbol._from_protobuf(s, ir) for s in proto_module.symbols
@@ -294,6 +299,19 @@ class Module(AuxDataContainer):
         )
 
         return m
+
+    def _resolve_pending_entry_point(self, ir: "IR") -> None:
+        """Resolve an entry point that named a block of a later module."""
+
+        entry_point_uuid = self.__dict__.pop("_pending_entry_point", None)
+        if entry_point_uuid is not None:
+            entry_point = ir.get_by_uuid(entry_point_uuid)
+            if not isinstance(entry_point, CodeBlock):
+                raise DeserializationError(
+                    "Module: entry block UUID %s is not a CodeBlock"
+                    % entry_point_uuid
+                )
+            self.entry_point = entry_point
 
     def _to_protobuf(self) -> Module_pb2.Module:
         proto_module = Module_pb2.Module()
